@@ -43,6 +43,9 @@ type Config struct {
 	// NumVoters is the number of relayer voters besides the proposer; each relayer member has an
 	// account key (secp256k1) and a BLS vote key. RelayerKeys[0] is the genesis proposer.
 	NumVoters int
+	// ShareProposerKey: the genesis relayer proposer uses validator 0's account key (an operator running
+	// both roles): one account signs execution-block messages and relayer messages
+	ShareProposerKey bool
 	// NumValidators is the number of genesis consensus validators (all Active; default 1).
 	// Validator 0 is "our node": its key is written to the priv_validator key file so the real
 	// PrepareProposal handler can sign MsgNewEthBlock.
@@ -177,6 +180,9 @@ func buildGenesis(cfg *Config, cdc codec.Codec, def map[string]json.RawMessage,
 			num++
 		}
 		for _, m := range members {
+			if seen[string(m.AccAddr)] && cfg.ShareProposerKey {
+				continue
+			}
 			if seen[string(m.AccAddr)] {
 				return nil, nil, fmt.Errorf("duplicate account %s", m.AccAddr)
 			}
